@@ -1,13 +1,44 @@
 package main
 
 import (
+	"fmt"
 	"os"
+	"sort"
+	"strings"
+
+	"golang.org/x/tools/go/ssa"
+
 	"verif/checker/eng"
-	"verif/checker/rules"
 )
 
+// scratch: lists the non-module callees of the named functions (and their same-package helper cluster)
 func main() {
 	p, err := eng.Load(eng.LoadConfig{})
-	if err != nil { panic(err) }
-	rules.DebugLoops(p, os.Args[1:]...)
+	if err != nil {
+		panic(err)
+	}
+	for _, name := range os.Args[1:] {
+		fn := p.Func(name)
+		if fn == nil {
+			fmt.Println(name, "NOT FOUND")
+			continue
+		}
+		set := map[string]bool{}
+		for _, h := range eng.Cluster(fn, 2) {
+			eng.Instrs(h, true, func(in ssa.Instruction) {
+				if ci, ok := in.(ssa.CallInstruction); ok {
+					n := eng.CalleeName(ci)
+					if strings.HasPrefix(n, "strings.") || strings.HasPrefix(n, "bytes.") || strings.HasPrefix(n, "unicode") {
+						set[n] = true
+					}
+				}
+			})
+		}
+		var l []string
+		for k := range set {
+			l = append(l, k)
+		}
+		sort.Strings(l)
+		fmt.Println(name, l)
+	}
 }
